@@ -227,9 +227,10 @@ def exc_is_sub(cls_expr, name: str) -> z3.BoolRef:
 class Val:
     """A symbolic Python value.  `z` is a term of sort V (None for purely static things)."""
 
-    __slots__ = ("z", "tup", "py", "th")
+    __slots__ = ("z", "tup", "py", "th", "lit")
 
     def __init__(self, z=None, tup=None, py=None, th=None):
+        self.lit = None  # for a list built by a literal: the element Vals (keeps classes / functions usable when iterated)
         self.z = z
         self.tup: Optional[List["Val"]] = tup
         self.py: Any = py  # static python-level meaning: ('class', ClassInfo) / ('func', FuncInfo) / ...
